@@ -75,18 +75,37 @@ _installed = False
 
 
 def install() -> int:
-    """Rebind ``datetime`` in the kopf modules which read the wall clock. Returns how many were rebound."""
+    """
+    Rebind ``datetime`` in the kopf modules which read the wall clock. Returns how many were rebound.
+
+    Besides the modules known to read the clock at the pinned commit, EVERY loaded ``kopf.*`` module which holds the
+    ``datetime`` module (or the ``datetime.datetime`` class, via a from-import) under any name is rebound, so that an
+    innocent edit of kopf (a clock read moved to another module, another import style) does not silently put a part of
+    the operator back on the frozen real clock -- which would show as false alarms, not as a harness error.
+    """
     global _installed
     import importlib
+    import sys
     n = 0
     for name in _SHIMMED:
         try:
-            mod = importlib.import_module(name)
+            importlib.import_module(name)
         except Exception:
             continue
-        if getattr(mod, 'datetime', None) is not None:
-            mod.datetime = _touch_shim if name.endswith('.application') else _shim  # type: ignore[attr-defined]
-            n += 1
+    try:
+        import kopf  # noqa: F401  -- brings in all of its core modules
+    except Exception:
+        pass
+    for name, mod in list(sys.modules.items()):
+        if not (name == 'kopf' or name.startswith('kopf.')) or mod is None:
+            continue
+        for attr, val in list(vars(mod).items()):
+            if val is _dt:
+                setattr(mod, attr, _touch_shim if name.endswith('.application') else _shim)
+                n += 1
+            elif val is _dt.datetime:
+                setattr(mod, attr, VTouchDateTime if name.endswith('.application') else VDateTime)
+                n += 1
     _installed = True
     return n
 
